@@ -94,6 +94,16 @@ Definition dispatch_ext (op : Z) (args : list tok) : value :=
     | Some ops => VList (map VInt (snd (seq_run (if kind =? 0 then new_fixed start else new_random start) ops)))
     | None => VBad
     end
+  | 704, [TInt start; TList ops] =>
+    (* one sequencer shared by direct callers and a packetizer: [2 k] / [3 n] draw k / n numbers *)
+    match opt_map (fun t => match t with
+                            | TInt 0 => Some (BOne SNext) | TInt 1 => Some (BOne SRoc)
+                            | TList [TInt _; TInt k] => Some (BTake (Z.to_nat k))
+                            | _ => None end) ops with
+    | Some bops => VList (map (fun (p : bop * list Z) => match fst p with BOne _ => VInt (hd 0 (snd p)) | BTake _ => VList (map VInt (snd p)) end)
+                              (combine bops (snd (seq_brun (new_fixed start) bops))))
+    | None => VBad
+    end
   | 703, [TList _] => VUnit   (* a recorded concurrent trace: judged by the harness rule only *)
   | 702, [TInt d; TList ops] =>
     (* NewRandomSequencer with a generator whose Intn(n) returns min(d, n-1) *)
